@@ -7,6 +7,7 @@ import (
 	"strconv"
 	"sync"
 	"testing/synctest"
+	"time"
 )
 
 // Event is one entry of the run's event log. Seq is the global event sequence number.
@@ -68,6 +69,14 @@ type Ctx struct {
 
 	// Hook lets the engine observe callbacks synchronously (snapshots at before-init etc).
 	Hook func(kind, subj string, obj any)
+
+	// TimeMayPass: from now on the scheduler may, as a pick, let (simulated) time pass before
+	// it releases the next task: everything parked stays parked for that long. The bubble's
+	// clock only moves while every goroutine is blocked, so a timer inside the container fires
+	// exactly when the simulator decides that the parked tasks are that slow.
+	TimeMayPass bool
+	// Slept is the simulated time that passed this way.
+	Slept time.Duration
 }
 
 func NewCtx(ch *Chooser) *Ctx {
@@ -352,6 +361,12 @@ func (c *Ctx) Drive(main func(), atQuiescence func(mainDone bool)) DriveResult {
 				synctest.Wait()
 			}
 			return res
+		}
+		if c.TimeMayPass && !c.Parallel && len(c.ParkedSites()) != 0 && c.Ch.Choose("time-passes", 5) == 1 {
+			d := time.Duration(1+c.Ch.Choose("how-long", 3)) * 4 * time.Second
+			c.Slept += d
+			time.Sleep(d) // simulated: returns once the bubble's clock has moved that far
+			continue      // the container may have reacted: look at the new quiescent point first
 		}
 		var ok bool
 		if c.Parallel {
